@@ -474,9 +474,12 @@ pub fn encode_with_dist_header_multi(terms: &[&OwnedTerm]) -> Result<Vec<u8>, En
         buf.put_u8(0);
     }
 
+    // The LongAtoms flag is bit 0 of the nibble that follows the last reference's nibble:
+    // the low nibble of the last flag byte for an even count, its high nibble for an odd one.
     let long_atoms = atoms.iter().any(|a| a.name.len() > 255);
     if long_atoms {
-        buf[flags_start_pos + flags_len - 1] |= 0x01;
+        let long_atoms_bit = if atoms.len() % 2 == 0 { 0x01 } else { 0x10 };
+        buf[flags_start_pos + flags_len - 1] |= long_atoms_bit;
     }
 
     for (index, atom) in atoms.iter().enumerate() {
